@@ -163,3 +163,69 @@ pub fn c09__missing_remainder_commitment_rejected() {
     kani::cover!(true, "VERIF-COVER");
     core::mem::forget(ch);
 }
+
+//@ harness=c09__one_layer_accept_iff_consistent_pos2 tier=thorough kind=prove cap=7200 :: real FriVerifier with ONE folding layer (domain 8, folding 2, F17), query position 2: for ARBITRARY committed row values (r0, r1), claimed evaluation e, committed remainder (2 coefficients) and alpha: verify accepts <=> e is the row entry of the queried position AND the row's interpolant evaluated at alpha equals the remainder at the folded point - every inconsistent opening is rejected, every consistent one accepted
+#[kani::proof]
+#[kani::unwind(10)]
+#[kani::stub(alloc::fmt::format, no_fmt)]
+pub fn c09__one_layer_accept_iff_consistent_pos2() {
+    one_layer_iff(2);
+}
+//@ harness=c09__one_layer_accept_iff_consistent_pos7 tier=thorough kind=prove cap=7200 :: same for query position 7 (second entry of the opened row)
+#[kani::proof]
+#[kani::unwind(10)]
+#[kani::stub(alloc::fmt::format, no_fmt)]
+pub fn c09__one_layer_accept_iff_consistent_pos7() {
+    one_layer_iff(7);
+}
+//@ harness=c09__one_layer_accept_iff_consistent_anypos tier=thorough kind=prove cap=7200 :: same with a symbolic query position 0..8
+#[kani::proof]
+#[kani::unwind(10)]
+#[kani::stub(alloc::fmt::format, no_fmt)]
+pub fn c09__one_layer_accept_iff_consistent_anypos() {
+    let pos: usize = kani::any();
+    kani::assume(pos < 8);
+    one_layer_iff(pos);
+}
+fn one_layer_iff(pos: usize) {
+    use crate::model::fri::{GV_LEAVES, GV_LEN, GV_ROOT};
+    ih_reset();
+    let row: [F17; 2] = kani::any();
+    let rem: [F17; 2] = kani::any();
+    let e: F17 = kani::any();
+    let alpha: F17 = kani::any();
+    let fpos = pos % 4;
+    let layer_root: u64 = kani::any();
+    unsafe {
+        GV_ROOT = layer_root;
+        GV_LEN = 4;
+        GV_LEAVES = kani::any();
+        let d = H::hash_elements(&row);
+        kani::assume(GV_LEAVES[fpos] == d.0);
+    }
+    let mut ch = Ch::<GV> {
+        commitments: vec![D64(layer_root), H::hash_elements(&rem)],
+        layer_queries: vec![row.to_vec()],
+        remainder: rem.to_vec(),
+        num_partitions: 1,
+        _v: PhantomData,
+    };
+    let v = crate::c08::one_layer_verifier(&mut ch, alpha).unwrap();
+    let res = v.verify(&mut ch, &[e], &[pos]);
+    // oracle: x = 3 * g^fpos; interpolant through (x, r0), (-x, r1) at alpha, times 2x:  x (r0 + r1) + alpha (r0 - r1);
+    // remainder (reversed coefficients) at the folded point 3 * (g^2)^fpos
+    let x = domain8(fpos);
+    let lhs = x * (row[0] + row[1]) + alpha * (row[0] - row[1]);
+    let mut y = F17(3);
+    let mut i = 0;
+    while i < fpos {
+        y = y * F17(13); // g^2 = 9^2 = 81 = 13 (mod 17)
+        i += 1;
+    }
+    let rhs = (x + x) * (rem[0] * y + rem[1]);
+    let consistent = (if pos < 4 { row[0] } else { row[1] }) == e && lhs == rhs;
+    assert_eq!(res.is_ok(), consistent);
+    kani::cover!(consistent && row[0] != row[1], "VERIF-COVER accepted");
+    kani::cover!(!consistent && (if pos < 4 { row[0] } else { row[1] }) == e, "VERIF-COVER rejected by the remainder check");
+    core::mem::forget((ch, v));
+}
